@@ -36,7 +36,7 @@ type node struct {
 	kind   string
 }
 
-type vecEntry struct {
+type VecEntry struct {
 	Name string `json:"n"`
 	Val  uint64 `json:"v"`
 	term T
@@ -54,7 +54,7 @@ type Violation struct {
 	Label   string     `json:"label"`
 	Kind    string     `json:"kind"` // "assert" | "panic" | "unreachable"
 	Pos     string     `json:"pos"`
-	Vector  []vecEntry `json:"vector"`
+	Vector  []VecEntry `json:"vector"`
 	Path    []int      `json:"path"`
 	Note    string     `json:"note,omitempty"`
 }
@@ -73,7 +73,7 @@ type Worker struct {
 	assertRep bool // replaying a donated prefix: assert without checking
 	pcSat     bool
 	symCount  map[string]int
-	vector    []vecEntry
+	vector    []VecEntry
 	steps     int64
 	depth     int
 	consts    map[*ssa.Const]value
@@ -84,6 +84,8 @@ type Worker struct {
 	callStack []*ssa.Function
 	gor       *gorState
 	intr      map[*ssa.Function]intrinsic
+	jobPaths  int
+	reached   []string
 
 	res *HarnessResult // accumulates locally; merged at job end
 }
@@ -117,11 +119,17 @@ type HarnessResult struct {
 	MaxDepth     int
 }
 
+type Obs struct {
+	Label string `json:"label"`
+	Val   uint64 `json:"val"`
+}
+
 type PathSample struct {
-	Path    []int               `json:"decisions"`
-	Vector  []vecEntry          `json:"vector"`
-	Observe []map[string]uint64 `json:"observe,omitempty"`
-	PC      string              `json:"pc_summary,omitempty"`
+	Harness string     `json:"harness"`
+	Path    []int      `json:"decisions"`
+	Vector  []VecEntry `json:"vector"`
+	Observe []Obs      `json:"observe"`
+	Reached []string   `json:"reached,omitempty"`
 }
 
 func newResult(name string) *HarnessResult {
@@ -165,12 +173,7 @@ func (r *HarnessResult) merge(o *HarnessResult) {
 	for k, v := range o.Stubs {
 		r.Stubs[k] += v
 	}
-	if len(r.Samples) < 8 {
-		r.Samples = append(r.Samples, o.Samples...)
-		if len(r.Samples) > 8 {
-			r.Samples = r.Samples[:8]
-		}
-	}
+	r.Samples = append(r.Samples, o.Samples...)
 	r.Solver.Sat += o.Solver.Sat
 	r.Solver.Unsat += o.Solver.Unsat
 	r.Solver.Unknown += o.Solver.Unknown
@@ -279,14 +282,14 @@ func sanitize(s string) string {
 func (w *Worker) newSym(base string, wd uint8, lo, hi uint64) T {
 	name := w.freshName(base)
 	t := w.tb.Var(name, wd, lo, hi)
-	w.vector = append(w.vector, vecEntry{Name: name, term: t, node: -1})
+	w.vector = append(w.vector, VecEntry{Name: name, term: t, node: -1})
 	return t
 }
 
 func (w *Worker) newBoolSym(base string) T {
 	name := w.freshName(base)
 	t := w.tb.BoolVar(name)
-	w.vector = append(w.vector, vecEntry{Name: name, term: t, node: -1})
+	w.vector = append(w.vector, VecEntry{Name: name, term: t, node: -1})
 	return t
 }
 
@@ -504,6 +507,7 @@ func (w *Worker) resetPath() {
 	w.callStack = w.callStack[:0]
 	w.pcSat = true
 	w.gor = nil
+	w.reached = w.reached[:0]
 }
 
 func (w *Worker) pathChoices() []int {
@@ -515,7 +519,7 @@ func (w *Worker) pathChoices() []int {
 }
 
 // modelVector fills vector values from the solver model (call right after Sat).
-func (w *Worker) modelVector() []vecEntry {
+func (w *Worker) modelVector() []VecEntry {
 	var vars []T
 	for _, e := range w.vector {
 		if e.term != nil {
@@ -527,13 +531,14 @@ func (w *Worker) modelVector() []vecEntry {
 		fmt.Fprintln(os.Stderr, "model error:", err)
 		m = sym.Model{}
 	}
-	out := make([]vecEntry, len(w.vector))
+	out := make([]VecEntry, len(w.vector))
 	for i, e := range w.vector {
-		out[i] = vecEntry{Name: e.Name, node: e.node}
+		out[i] = VecEntry{Name: e.Name, node: e.node}
 		if e.term != nil {
-			if v, ok := m[e.Name]; ok {
+			if v, ok := m[e.Name]; ok && v >= e.term.Lo && v <= e.term.Hi {
 				out[i].Val = v
 			} else {
+				// not constrained on this path: any in-range value is consistent
 				out[i].Val = e.term.Lo
 			}
 		} else if e.node >= 0 && e.node < len(w.nodes) {
@@ -545,7 +550,7 @@ func (w *Worker) modelVector() []vecEntry {
 	return out
 }
 
-func (w *Worker) recordViolation(kind, label string, pos token.Pos, vec []vecEntry, note string) {
+func (w *Worker) recordViolation(kind, label string, pos token.Pos, vec []VecEntry, note string) {
 	w.res.ViolCount[label]++
 	if w.res.ViolCount[label] <= 3 {
 		w.res.Violations = append(w.res.Violations, Violation{
@@ -620,6 +625,7 @@ func (w *Worker) runJob(job Job) {
 		w.nodes = append(w.nodes, node{choice: c, next: 1 << 30})
 	}
 	w.replayLen = len(job.Prefix)
+	w.jobPaths = 0
 	w.assertRep = len(job.Prefix) > 0
 	minDepth := len(job.Prefix)
 	s0 := w.solver.Stats
@@ -694,10 +700,19 @@ func (w *Worker) runPath() {
 	// completed
 	if w.live() || len(w.nodes) == 0 {
 		w.res.Paths++
-		if len(w.res.Samples) < 4 && w.checkPC() {
+		w.jobPaths++
+		if (w.jobPaths <= 2 || w.jobPaths%w.eng.sampleStride == 0) && w.eng.takeSample() {
 			if w.solver.Check() == sym.Sat {
 				vec := w.modelVector()
-				w.res.Samples = append(w.res.Samples, PathSample{Path: w.pathChoices(), Vector: vec})
+				m := sym.Model{}
+				for _, e := range vec {
+					m[e.Name] = e.Val
+				}
+				ps := PathSample{Harness: w.h.Name, Path: w.pathChoices(), Vector: vec, Reached: append([]string{}, w.reached...)}
+				for _, o := range w.observes {
+					ps.Observe = append(ps.Observe, Obs{Label: o.label, Val: w.tb.Eval(o.t, m)})
+				}
+				w.res.Samples = append(w.res.Samples, ps)
 			}
 		}
 	}
